@@ -198,6 +198,15 @@ def gen_c06(tier, enum):
 	}
 	c06SameTLV(at, ad, bt, bd)
 	verifAssert(l.NextHeader == l2.NextHeader, "same next header")"""
+        elif T == "IPv4":
+            # FixLengths recomputes the header length (IHL) from the options; padding
+            # beyond what alignment needs (bytes after an end-of-options octet in a
+            # longer header) is cut with it, what remains must be unchanged
+            fields_check = """verifAssert(verifDeepEqualExcept(&l, &l2, "(?i)checksum|length|len$|crc|fcs|^IHL$|^Padding$"), "same field values after serialize then decode")
+	verifAssert(len(l2.Padding) <= len(l.Padding) || len(l.Padding) == 0, "padding not longer after the round trip")
+	if len(l2.Padding) <= len(l.Padding) {
+		verifAssert(bytes.Equal(l2.Padding, l.Padding[:len(l2.Padding)]), "padding bytes unchanged after the round trip")
+	}"""
         else:
             fields_check = 'verifAssert(verifDeepEqualExcept(&l, &l2, "(?i)checksum|length|len$|crc|fcs"), "same field values after serialize then decode")'
         # RADIUS: the payload is a view of the EAP-Message attribute values the
